@@ -138,7 +138,7 @@ def js_frontends(run, label, queries, recsA, maxA, recsB='R_none', maxB=0, cli_e
         for tid, case in enumerate(res.cases, 1):
             exp = case['expect']
             want_err = exp['err'][0]['cls'] if exp['err'] else None
-            if not exp['textonly'] and not want_err:
+            if (not exp['textonly'] and not want_err) or (exp.get('alt') or {}).get('has'):
                 continue
             qtext = engine.render_query(case, engine.Spelling(ec.case_key(case) + 'extjs'), 'js')
             A, B = engine.table_py(case['A']), engine.table_py(case['B'])
